@@ -463,7 +463,10 @@ def get_header_lines(header):
 
 first_line_re = re.compile(
     rb"(?P<method>[!#$%&'*+\-.^_`|~0-9A-Za-z]+) "
-    rb"(?P<uri>(?:[^ :?#]+://[^ ?#/]*(?:[0-9]{1,5})?)?[^ ]+)"
+    # (the target is simply everything up to the next SP; an optional
+    # "scheme://authority[:port]" prefix in front of "[^ ]+" matched the same
+    # strings, but made a mismatch on a long run of digits quadratic)
+    rb"(?P<uri>[^ ]+)"
     rb"(?: HTTP/(?P<version>[0-9]\.[0-9]))?"
 )
 
